@@ -77,7 +77,7 @@ static void write_file(const std::string &p, const std::string &t) { std::ofstre
 
 int main(int argc, char **argv) {
   if (!freopen("/dev/null", "w", stdout)) {}
-  double K = atof(arg_value(argc, argv, "--K", "32")); auto PP = pairs();
+  double K = atof(arg_value(argc, argv, "--K", "64")); auto PP = pairs();
   if (const char *rf = arg_value(argc, argv, "--replay")) { std::ifstream f(rf); std::stringstream ss; ss << f.rdbuf(); C20Case c; if (!from_text(ss.str(), c) || c.pair < 0 || c.pair >= (int)PP.size()) { fprintf(stderr, "not a c20 case\n"); return 2; }
     c.rich.only.clear(); c.simple.only.clear(); bool bad = false; for (auto &r : run(PP[c.pair], c, K)) { fprintf(stderr, "  %-34s %s: rich=%s simple=%s err=%.4g eps*mag %s\n", PP[c.pair].name.c_str(), r.label.c_str(), decld(r.a).c_str(), decld(r.b).c_str(), r.err, r.bad ? "VIOLATION" : "ok"); bad |= r.bad; }
     fprintf(stderr, "REPLAY %s\n", bad ? "violation" : "pass"); return bad ? 1 : 0; }
